@@ -56,6 +56,8 @@ type Engine struct {
 	strOps    map[string]bool
 	loopStates map[*loopInfo]*liState
 	oblCount map[string]int
+	rootArgs []Val
+	inInit bool
 	allocBase string // loop allocation base of the block being executed ("" outside loops)
 	loopAllocN map[string]int
 	lastLoopBase string
@@ -147,6 +149,29 @@ func (e *Engine) oblige(o *Obligation) {
 	e.oblCount[o.Name]++
 	if n := e.oblCount[o.Name]; n > 1 {
 		o.Name = fmt.Sprintf("%s#%d", o.Name, n)
+	}
+	if o.Kind == "panic" && e.rootC != nil && e.rootArgs != nil {
+		// known findings on panic sites: regions over the function's parameters (entry state)
+		var regions []string
+		for _, f := range e.w.Findings.Findings {
+			if f.Obligation != o.Name || !strings.HasSuffix(e.rootC.Pkg, f.Pkg) || f.Pred == "" {
+				continue
+			}
+			kp := e.w.Preds[e.rootC.Pkg+"."+f.Pred]
+			if kp == nil {
+				continue
+			}
+			r := e.evalPred(kp, e.rootArgs, e.oldHeap, nil)
+			regions = append(regions, r)
+			c := &Obligation{Name: o.Name + ".canary." + f.ID, Kind: "canary", Clause: "known finding " + f.ID + " still fails: " + f.What,
+				Goal: and(r, not(o.Goal)), Cover: true, Func: o.Func, Pos: o.Pos, Finding: f}
+			c.Upto = e.sc.mark()
+			e.obls = append(e.obls, c)
+		}
+		if len(regions) > 0 {
+			o.Goal = implies(not(or(regions...)), o.Goal)
+			o.NRegions = len(regions)
+		}
 	}
 	o.Upto = e.sc.mark()
 	e.obls = append(e.obls, o)
